@@ -284,8 +284,8 @@ impl Engine for Kv06 {
     }
     fn budget(&self, cfg: &Cfg) -> Budget {
         match cfg.tier {
-            Tier::Quick => Budget { runs: 60_000, max_secs: 25.0 },
-            Tier::Thorough => Budget { runs: 3_000_000, max_secs: 360.0 },
+            Tier::Quick => Budget { runs: 800_000, max_secs: 25.0 },
+            Tier::Thorough => Budget { runs: 20_000_000, max_secs: 360.0 },
         }
     }
 
